@@ -141,6 +141,49 @@ def codeblock_names(node):
     return rd, wr
 
 
+_DESIGNATORS = ("Name", "Part_Ref", "Data_Ref", "Array_Section", "Substring", "Structure_Component",
+                "Data_Pointer_Object", "Proc_Component_Ref")
+
+
+def codeblock_expr_info(node):
+    """(names, may_read, designated) of an EXPRESSION CodeBlock.  `names`: every fparser2 Name of the text in walk
+    order (what get_symbol_names returns, lower case); `may_read`: the names that resolve to a DataSymbol, minus
+    the variables of implied-DO loops of array constructors (they are local to the constructor); `designated`: when
+    the text is a variable designator (sub-string of an array element `names(k)(1:3)`, a component chain the
+    frontend does not support, ...) the base variable: passed as an actual argument it is definable by the callee."""
+    from fparser.two import Fortran2003 as F
+    from fparser.two.utils import walk
+    from psyclone.psyir.symbols import DataSymbol
+    asts = node.get_ast_nodes
+    names = [n.string.lower() for n in walk(asts, F.Name)]
+    implied = set()
+    for ctl in walk(asts, (F.Ac_Implied_Do_Control, F.Data_Implied_Do)):
+        ns = [n.string.lower() for n in walk(ctl, F.Name)]
+        if ns:
+            implied.add(ns[0])
+
+    def is_data(n):
+        try:
+            return isinstance(node.scope.symbol_table.lookup(n), DataSymbol)
+        except KeyError:
+            return False
+    rd = {n for n in names if is_data(n) and n not in implied}
+    dv = None
+    if len(asts) == 1 and type(asts[0]).__name__ in _DESIGNATORS and names and names[0] in rd:
+        dv = names[0]
+    return names, rd, dv
+
+
+def cb_subs(rd, dv):
+    """variables read to locate the object a designator CodeBlock designates (subscripts, sub-string bounds)"""
+    return {n for n in rd if n != dv}
+
+
+def is_expr_codeblock(node):
+    from psyclone.psyir import nodes as N
+    return isinstance(node, N.CodeBlock) and not isinstance(node.parent, N.Schedule)
+
+
 class Exporter:
     """One exporter per statement: keeps the name table, call-site table and whether the statement can be
     executed by the tracing semantics (`dynamic`)."""
@@ -149,6 +192,7 @@ class Exporter:
         self.names = names or minif.Names()
         self.dynamic = True
         self.sites = []          # call nodes, index = site id
+        self.has_exprcb = False
         self._ids = None
 
     def intrinsic_id(self, intrinsic):
@@ -215,6 +259,11 @@ class Exporter:
             return ["un", _UN.get(op, "plus"), self.expr(node.children[0])]
         if isinstance(node, N.Reference):
             return self.ref(node)
+        if isinstance(node, N.CodeBlock):
+            names, rd, dv = codeblock_expr_info(node)
+            self.has_exprcb = True
+            return ["cb", self.site(node), [self.names.id(n) for n in names], sorted(self.names.id(n) for n in rd),
+                    "n" if dv is None else self.names.id(dv)]
         raise Unsupported(type(node).__name__)
 
     # -- statements ----------------------------------------------------
@@ -342,8 +391,21 @@ def may_sets(node):
     from psyclone.psyir import nodes as N
     rd, wr = set(), set()
 
+    def designated(arg):
+        """base variable of an actual argument that is a variable (a Reference, or an expression CodeBlock whose
+        text is a designator), else None"""
+        if isinstance(arg, N.Reference):
+            return _base_var(arg)
+        if isinstance(arg, N.CodeBlock):
+            return codeblock_expr_info(arg)[2]
+        return None
+
     def reads_of(e, skip_value=False):
         """variables whose value evaluation of expression e reads"""
+        if isinstance(e, N.CodeBlock):
+            _, crd, cdv = codeblock_expr_info(e)
+            rd.update(cb_subs(crd, cdv) if skip_value else crd)
+            return
         if isinstance(e, N.IntrinsicCall):
             args = list(e.arguments)
             if e.intrinsic.is_inquiry and args:
@@ -353,6 +415,8 @@ def may_sets(node):
                     for comp in sig_indices(first)[1]:
                         for i in comp:
                             reads_of(i)
+                elif isinstance(first, N.CodeBlock):
+                    reads_of(first, skip_value=True)
                 else:
                     reads_of(first)
                 args = args[1:]
@@ -377,16 +441,17 @@ def may_sets(node):
         pure_fn = bool(call.is_pure) and not statement
         for pos, arg in enumerate(call.arguments):
             it = intents[pos] if intents is not None else None
-            if isinstance(arg, N.Reference):
+            base = designated(arg)
+            if base is not None:
                 if it == "in" or (it is None and pure_fn):
                     reads_of(arg)
                 elif it == "out":
-                    wr.add(_base_var(arg))
+                    wr.add(base)
                     reads_of(arg, skip_value=True)
                 else:   # inout or unknown interface: may be read and may be modified
                     reads_of(arg)
                     if not pure_fn:
-                        wr.add(_base_var(arg))
+                        wr.add(base)
             else:
                 reads_of(arg)
 
@@ -400,8 +465,8 @@ def may_sets(node):
             else:
                 modified = pos_mod == "all" or npos in pos_mod
                 npos += 1
-            if isinstance(arg, N.Reference) and modified:
-                wr.add(_base_var(arg))
+            if designated(arg) is not None and modified:
+                wr.add(designated(arg))
                 reads_of(arg, skip_value=True)
             else:
                 reads_of(arg)
